@@ -10,6 +10,9 @@ import (
 	"golang.org/x/image/font/gofont/goregular"
 	"golang.org/x/text/language"
 
+	"seehuhn.de/go/postscript/cid"
+
+	"seehuhn.de/go/sfnt/cff"
 	"seehuhn.de/go/sfnt/cmap"
 	"seehuhn.de/go/sfnt/glyph"
 	"seehuhn.de/go/sfnt/head"
@@ -36,6 +39,9 @@ var tableDecoder = map[string]string{
 type Limits struct {
 	Thorough bool
 	MaxMLen  int // seeds longer than this are mutated only below this offset (0 = no limit)
+	// BigMLen (0 = no extra limit) applies to whole-font seeds of more than 32 KiB, whose every
+	// mutant costs milliseconds (Go Regular: 650 glyphs decoded, probed and re-encoded)
+	BigMLen int
 }
 
 type seedSet struct {
@@ -57,6 +63,9 @@ func (ss *seedSet) add(name, dec string, data []byte, ntab int) {
 	if ss.lim.MaxMLen > 0 && mlen > ss.lim.MaxMLen {
 		mlen = ss.lim.MaxMLen
 	}
+	if dec == "sfnt" && len(data) > 32768 && ss.lim.BigMLen > 0 && mlen > ss.lim.BigMLen {
+		mlen = ss.lim.BigMLen
+	}
 	if dec == "header" {
 		// only the directory (and a little more) is ever looked at
 		n := int(binary.BigEndian.Uint16(data[4:]))
@@ -66,7 +75,7 @@ func (ss *seedSet) add(name, dec string, data []byte, ntab int) {
 		ntab = 0
 	}
 	ss.list = append(ss.list, &Seed{ID: len(ss.list) + 1, Name: name, Dec: dec, Len: len(data), MLen: mlen,
-		NTab: ntab, Data: data})
+		NTab: ntab, Data: data, Formats: FormatsOf(dec, data)})
 }
 
 // addFont adds a whole font file, its directory and every table that has a stand-alone decoder.
@@ -131,6 +140,48 @@ func BuildSeeds(lim Limits) ([]*Seed, error) {
 	if err := ss.addFont("goregular", goregular.TTF); err != nil {
 		return nil, err
 	}
+	{
+		// CID-keyed font whose FD index changes block-wise (FD = gid/8): the writer chooses FDSelect
+		// format 3 (14 bytes against 25 for format 0); consecutive CIDs give a range-coded charset
+		o := fonts.Opts{Kind: "cid", N: 24, Cmap: "4", FDs: 3}
+		f := fonts.Make(vio.Rand(199), o)
+		out := f.Outlines.(*cff.Outlines)
+		out.FDSelect = func(g glyph.ID) int { return int(g) / 8 }
+		for i := range out.GIDToCID {
+			out.GIDToCID[i] = cid.CID(i)
+		}
+		var buf bytes.Buffer
+		if _, err := f.Write(&buf); err != nil {
+			return nil, fmt.Errorf("cannot write the FDSelect-3 seed font: %v", err)
+		}
+		if err := ss.addFont("cid-n24-fd3-blockwise", buf.Bytes()); err != nil {
+			return nil, err
+		}
+	}
+	// hand-made CFF fonts for the structures the library's writer never produces
+	ss.add("hand/cff-charset0-enc0-off1", "cff", handCFF(cffOpt{charset: 0, enc: 0, offSize: [6]int{1, 1, 1, 1, 1, 1}}), 0)
+	ss.add("hand/cff-charset1-enc1supp-off2-subrs", "cff", handCFF(cffOpt{charset: 1, enc: 1, supp: true, subrs: true, offSize: [6]int{2, 2, 2, 2, 2, 2}}), 0)
+	ss.add("hand/cff-charset2-enc0supp-off3/4-subrs", "cff", handCFF(cffOpt{charset: 2, enc: 0, supp: true, subrs: true, offSize: [6]int{4, 3, 3, 4, 3, 3}}), 0)
+	ss.add("hand/cff-predefined", "cff", handCFF(cffOpt{charset: -1, enc: -1, offSize: [6]int{1, 1, 1, 1, 1, 1}}), 0)
+	ss.add("hand/cff-expert", "cff", handCFF(cffOpt{charset: -2, enc: -2, offSize: [6]int{1, 1, 1, 1, 1, 1}}), 0)
+	// long loca: the short-offset glyf seed of the first TrueType font, re-expressed with 32-bit offsets
+	for _, sd := range ss.list {
+		if sd.Dec == "glyf" && len(sd.Data) >= 6 && sd.Data[1] == 0 && len(sd.Data) < 4096 {
+			ll := int(binary.BigEndian.Uint32(sd.Data[2:]))
+			loca, gl := sd.Data[6:6+ll], sd.Data[6+ll:]
+			long := make([]byte, 0, 2*ll)
+			for i := 0; i+1 < len(loca); i += 2 {
+				v := 2 * uint32(binary.BigEndian.Uint16(loca[i:]))
+				long = append(long, byte(v>>24), byte(v>>16), byte(v>>8), byte(v))
+			}
+			ss.add("hand/loca-long+glyf", "glyf", JoinGlyf(1, long, gl), 0)
+			break
+		}
+	}
+	ss.add("hand/post-format1", "post", []byte{0, 1, 0, 0, 0, 0, 0, 0, 0xFF, 0x9C, 0, 50, 0, 0, 0, 0,
+		0, 0, 0, 0, 0, 0, 0, 0, 0, 0, 0, 0, 0, 0, 0, 0}, 0)
+	ss.add("hand/GSUB-extension", "GSUB", handExtension(7, []int{1, 6, 2, 1, 1, 2}), 0)       // 1.1: coverage at 6, delta 2
+	ss.add("hand/GPOS-extension", "GPOS", handExtension(9, []int{1, 8, 4, 10, 1, 1, 2}), 0) // 1.1: coverage at 8, XAdvance 10
 
 	// cmap: one table with formats 0, 4 (with glyphIdArray), 6, 12 and a shared subtable
 	ss.add("hand/cmap-mixed", "cmap", handCmap(), 0)
@@ -303,6 +354,12 @@ func richGpos() ([]byte, error) {
 			Rules: [][]*gtab.ClassSeqRule{nil, {{Input: []uint16{2}, Actions: act}}, nil}}),
 		mk(8, &gtab.ChainedSeqContext3{Backtrack: []coverage.Set{{2: true}}, Input: []coverage.Set{{3: true}},
 			Lookahead: []coverage.Set{{4: true}}, Actions: act}),
+		mk(7, &gtab.SeqContext3{Input: []coverage.Set{{2: true}, {3: true, 4: true}}, Actions: act}),
+		mk(8, &gtab.ChainedSeqContext1{Cov: coverage.Table{3: 0}, Rules: [][]*gtab.ChainedSeqRule{{
+			{Backtrack: []glyph.ID{2}, Input: []glyph.ID{4}, Lookahead: []glyph.ID{5}, Actions: act}}}}),
+		mk(8, &gtab.ChainedSeqContext2{Cov: coverage.Table{3: 0}, Backtrack: classdef.Table{2: 1},
+			Input: classdef.Table{3: 1, 4: 2}, Lookahead: classdef.Table{5: 1},
+			Rules: [][]*gtab.ChainedClassSeqRule{nil, {{Backtrack: []uint16{1}, Input: []uint16{2}, Lookahead: []uint16{1}, Actions: act}}, nil}}),
 	}
 	sl, fl := scriptsAndFeatures("kern", len(ll))
 	return encodeGtab(&gtab.Info{ScriptList: sl, FeatureList: fl, LookupList: ll})
@@ -344,4 +401,144 @@ func handGpos5() []byte {
 	u16(1, 100, -50)      // anchor @16
 	u16(1, 300, 700)      // anchor @22
 	return b
+}
+
+// handExtension is a GSUB (ext = 7) or GPOS (ext = 9) table, laid out by hand, whose only lookup
+// is an extension lookup wrapping the given type-1 subtable (16-bit words).
+func handExtension(ext int, inner []int) []byte {
+	var b []byte
+	u16 := func(v ...int) {
+		for _, x := range v {
+			b = append(b, byte(x>>8), byte(x))
+		}
+	}
+	u16(1, 0, 10, 30, 44)
+	u16(1)
+	b = append(b, "DFLT"...)
+	u16(8, 4, 0, 0, 0xFFFF, 1, 0)
+	u16(1)
+	b = append(b, "test"...)
+	u16(8, 0, 1, 0)
+	u16(1, 4)         // LookupList @44
+	u16(ext, 0, 1, 8) // Lookup @48
+	u16(1, 1, 0, 8)   // extension subtable @56: format 1, extensionLookupType 1, extensionOffset 8
+	u16(inner...)     // wrapped subtable @64
+	return b
+}
+
+// cffOpt selects the alternative structures of a hand-made simple CFF font.
+type cffOpt struct {
+	charset int    // 0, 1, 2: custom charset of that format; -1: predefined ISOAdobe; -2: predefined Expert
+	enc     int    // 0, 1: custom encoding of that format; -1: Standard; -2: Expert
+	supp    bool   // encoding supplement
+	subrs   bool   // one global and one local subroutine, both called by glyph 1
+	offSize [6]int // offSize of the Name, Top DICT, String, Global Subr, CharStrings, Local Subr INDEX
+}
+
+func cffIndexBytes(offSize int, items ...[]byte) []byte {
+	if len(items) == 0 {
+		return []byte{0, 0}
+	}
+	out := []byte{byte(len(items) >> 8), byte(len(items)), byte(offSize)}
+	pos := 1
+	put := func(v int) {
+		for k := offSize - 1; k >= 0; k-- {
+			out = append(out, byte(v>>(8*k)))
+		}
+	}
+	put(pos)
+	for _, it := range items {
+		pos += len(it)
+		put(pos)
+	}
+	for _, it := range items {
+		out = append(out, it...)
+	}
+	return out
+}
+
+// handCFF lays out a three-glyph simple CFF font (Adobe TN5176) with the chosen structures.
+func handCFF(o cffOpt) []byte {
+	num := func(v int) []byte { return []byte{29, byte(v >> 24), byte(v >> 16), byte(v >> 8), byte(v)} }
+	g1 := []byte{14}
+	if o.subrs {
+		g1 = []byte{32, 29, 32, 10, 14} // -107 callgsubr, -107 callsubr, endchar
+	}
+	g2 := []byte{239, 239, 21, 189, 6, 14} // 100 100 rmoveto 50 hlineto endchar
+	name := cffIndexBytes(o.offSize[0], []byte("Hand"))
+	strs := cffIndexBytes(o.offSize[2], []byte("aa"), []byte("bb"))
+	gsub := cffIndexBytes(o.offSize[3])
+	if o.subrs {
+		gsub = cffIndexBytes(o.offSize[3], []byte{11})
+	}
+	chars := cffIndexBytes(o.offSize[4], []byte{14}, g1, g2)
+	var charset, enc []byte
+	switch o.charset {
+	case 0:
+		charset = []byte{0, 1, 0x87, 1, 0x88}
+	case 1:
+		charset = []byte{1, 1, 0x87, 1}
+	case 2:
+		charset = []byte{2, 1, 0x87, 0, 1}
+	}
+	sup := byte(0)
+	if o.supp {
+		sup = 0x80
+	}
+	switch o.enc {
+	case 0:
+		enc = []byte{sup, 2, 65, 66}
+	case 1:
+		enc = []byte{1 | sup, 1, 65, 1}
+	}
+	if o.supp && enc != nil {
+		enc = append(enc, 1, 97, 1, 0x87)
+	}
+	var priv, lsub []byte
+	if o.subrs {
+		priv = append(num(6), 19) // Subrs: the local subr INDEX follows the Private DICT
+		lsub = cffIndexBytes(o.offSize[5], []byte{11})
+	}
+	topLen := 6 + 11
+	if o.charset != -1 {
+		topLen += 6
+	}
+	if o.enc != -1 {
+		topLen += 6
+	}
+	topIdxLen := 3 + 2*o.offSize[1] + topLen
+	pos := 4 + len(name) + topIdxLen + len(strs) + len(gsub)
+	var top []byte
+	switch {
+	case o.charset >= 0:
+		top = append(top, append(num(pos), 15)...)
+		pos += len(charset)
+	case o.charset == -2:
+		top = append(top, append(num(1), 15)...)
+	}
+	switch {
+	case o.enc >= 0:
+		top = append(top, append(num(pos), 16)...)
+		pos += len(enc)
+	case o.enc == -2:
+		top = append(top, append(num(1), 16)...)
+	}
+	top = append(top, append(num(pos), 17)...)
+	pos += len(chars)
+	top = append(top, num(len(priv))...)
+	top = append(top, append(num(pos), 18)...)
+	if len(top) != topLen {
+		panic("handCFF: top DICT layout")
+	}
+	out := []byte{1, 0, 4, 4}
+	out = append(out, name...)
+	out = append(out, cffIndexBytes(o.offSize[1], top)...)
+	out = append(out, strs...)
+	out = append(out, gsub...)
+	out = append(out, charset...)
+	out = append(out, enc...)
+	out = append(out, chars...)
+	out = append(out, priv...)
+	out = append(out, lsub...)
+	return out
 }
